@@ -90,6 +90,9 @@ structure TermCore (g : G) (st : TermSt) : Prop where
   terms : st.1.terms = g.terms
   start : st.1.start = g.start
   nonterms : st.1.nonterms = g.nonterms ++ st.2.map (fun e => e.2)
+  freshg : ∀ e ∈ st.2, e.2 ∉ g.nonterms
+  keyOcc : ∀ e ∈ st.2, ∃ p ∈ g.prods, Sym.term e.1 ∈ p.body
+  form : ∀ e ∈ st.2, ∃ s ∈ alphas, e.2 = (alphas.foldl trimSuffix e.1) ++ s
   inj : ∀ e ∈ st.2, ∀ e' ∈ st.2, e.2 = e'.2 → e = e'
   keys : ∀ e ∈ st.2, st.2.lookup e.1 = some e.2
   defs : ∀ e ∈ st.2, ({ head := e.2, body := [Sym.term e.1] } : SProd) ∈ st.1.prods
@@ -112,7 +115,7 @@ theorem TermProd.mono {g : G} {s s' : Store} (hsub : ∀ e ∈ s, e ∈ s')
 /-- adding a production of one of the three kinds -/
 theorem TermCore.add_prod {g : G} {st : TermSt} (h : TermCore g st) {p' : SProd} (hp : TermProd g st.2 p') :
     TermCore g ({ st.1 with prods := ins st.1.prods p' }, st.2) := by
-  refine ⟨h.terms, h.start, h.nonterms, h.inj, h.keys, ?_, ?_⟩
+  refine ⟨h.terms, h.start, h.nonterms, h.freshg, h.keyOcc, h.form, h.inj, h.keys, ?_, ?_⟩
   · intro e he; exact mem_ins.mpr (Or.inl (h.defs e he))
   · intro q hq
     rcases mem_ins.mp hq with hq | rfl
@@ -121,7 +124,8 @@ theorem TermCore.add_prod {g : G} {st : TermSt} (h : TermCore g st) {p' : SProd}
 
 /-- a new terminal `t`: fresh name `n`, `n → t` -/
 theorem TermCore.extend {g : G} {st : TermSt} (h : TermCore g st) {t n : String} {g1 : G}
-    (hl : st.2.lookup t = none) (ha : addNew st.1 t alphas = .ok (g1, n)) :
+    (hl : st.2.lookup t = none) (ha : addNew st.1 t alphas = .ok (g1, n))
+    (hocc : ∃ p ∈ g.prods, Sym.term t ∈ p.body) :
     TermCore g ({ g1 with prods := ins g1.prods { head := n, body := [Sym.term t] } }, st.2 ++ [(t, n)]) ∧
     TermLe st ({ g1 with prods := ins g1.prods { head := n, body := [Sym.term t] } }, st.2 ++ [(t, n)]) := by
   obtain ⟨hf, rfl⟩ := addNew_ok ha
@@ -130,8 +134,23 @@ theorem TermCore.extend {g : G} {st : TermSt} (h : TermCore g st) {t n : String}
   have hnew : ∀ e ∈ st.2, e.2 ≠ n := by
     intro e he hen
     exact hf (hen ▸ h.fresh e he)
-  refine ⟨⟨h.terms, h.start, ?_, ?_, ?_, ?_, ?_⟩, ?_, hle⟩
+  have hform := addNew_form ha
+  refine ⟨⟨h.terms, h.start, ?_, ?_, ?_, ?_, ?_, ?_, ?_, ?_⟩, ?_, hle⟩
   · simp [h.nonterms]
+  · intro e he
+    rcases List.mem_append.mp he with he | he
+    · exact h.freshg e he
+    · simp at he; subst he
+      intro hg
+      exact hf (by rw [h.nonterms]; exact List.mem_append.mpr (Or.inl hg))
+  · intro e he
+    rcases List.mem_append.mp he with he | he
+    · exact h.keyOcc e he
+    · simp at he; subst he; exact hocc
+  · intro e he
+    rcases List.mem_append.mp he with he | he
+    · exact h.form e he
+    · simp at he; subst he; exact hform
   · intro e he e' he' hee
     rcases List.mem_append.mp he with he | he <;> rcases List.mem_append.mp he' with he' | he'
     · exact h.inj e he e' he' hee
@@ -179,7 +198,8 @@ def SymInv (g : G) (st0 : TermSt) (pre : List SSym) (acc : TermSt × List SSym) 
   TermCore g acc.1 ∧ TermLe st0 acc.1 ∧ acc.2 = pre.map (replS acc.1.2) ∧ AllLooked acc.1.2 pre
 
 theorem termSymStep_inv {g : G} {st0 : TermSt} {pre : List SSym} {acc acc' : TermSt × List SSym} {sym : SSym}
-    (h : SymInv g st0 pre acc) (hs : termSymStep acc sym = .ok acc') : SymInv g st0 (pre ++ [sym]) acc' := by
+    (h : SymInv g st0 pre acc) (hocc : ∃ p ∈ g.prods, sym ∈ p.body) (hs : termSymStep acc sym = .ok acc') :
+    SymInv g st0 (pre ++ [sym]) acc' := by
   obtain ⟨hc, hle, hnb, hal⟩ := h
   cases sym with
   | nonterm m =>
@@ -212,7 +232,7 @@ theorem termSymStep_inv {g : G} {st0 : TermSt} {pre : List SSym} {acc acc' : Ter
         obtain ⟨g1, n⟩ := r
         simp only [ha, bind, Outcome.bind, pure] at hs
         cases hs
-        obtain ⟨hc', hle'⟩ := hc.extend hl ha
+        obtain ⟨hc', hle'⟩ := hc.extend hl ha hocc
         have hlook : (acc.1.2 ++ [(t, n)]).lookup t = some n := by
           rw [lookup_append_none hl]; simp [List.lookup]
         refine ⟨hc', hle.trans hle', ?_, ?_⟩
@@ -239,7 +259,7 @@ theorem termBody_inv {g : G} {st st' : TermSt} {p : SProd} (hc : TermCore g st) 
     cases h
     have hinv := foldlM_inv_prefix termSymStep (SymInv g st) p.body [] (st, [])
       ⟨hc, TermLe.refl st, rfl, fun t ht => by cases ht⟩
-      (fun pre' s b s' hP hs _ => termSymStep_inv hP hs) r hf
+      (fun pre' s b s' hP hs hm => termSymStep_inv hP ⟨p, hp, hm⟩ hs) r hf
     simp only [List.nil_append] at hinv
     obtain ⟨hc', hle, hnb, hal⟩ := hinv
     refine ⟨hc'.add_prod (Or.inr (Or.inr ⟨p, hp, hnt, by rw [hnb], hal⟩)), ?_, ?_, hal⟩
@@ -309,9 +329,9 @@ theorem cnfTerm_spec {g g' : G} (h : cnfTerm g = .ok g') :
     simp only [Outcome.bind] at h
     cases h
     have h0 : ProdInv g [] (({ g with prods := [] } : G), []) :=
-      ⟨{ terms := rfl, start := rfl, nonterms := by simp,
-         inj := by intro e he; cases he, keys := by intro e he; cases he, defs := by intro e he; cases he,
-         prods := by intro p hp; cases hp }, by intro p hp; cases hp⟩
+      ⟨{ terms := rfl, start := rfl, nonterms := (by simp),
+         freshg := (by intro e he; cases he), keyOcc := (by intro e he; cases he), form := (by intro e he; cases he), inj := (by intro e he; cases he), keys := (by intro e he; cases he), defs := (by intro e he; cases he),
+         prods := (by intro p hp; cases hp) }, (by intro p hp; cases hp)⟩
     have := foldlM_inv_prefix termProdStep (ProdInv g) g.prods [] _ h0
       (fun pre' s b s' hP hs hm => termProdStep_inv hP hm hs) st hf
     simp only [List.nil_append] at this
